@@ -8,9 +8,18 @@ THEOREMS = ['Smtb.Metrics.inFlight_eq_open_requests', 'Smtb.Metrics.inFlight_add
 
 
 def run(ctx):
-    common.go_build(['corrserver'])
+    common.go_build(['corrserver', 'xtool'])
     common.lake_build(['Smtb.Properties.C20', 'driver'])
     common.audit(ctx, 'Smtb/Properties/C20.lean', THEOREMS)
+    facts_err = None
+    try:
+        common.regen_facts()
+        common.lake_build(['Smtb.Properties.C20Facts'])
+        common.audit(ctx, 'Smtb/Properties/C20Facts.lean', ['Smtb.Properties.C20Facts.instrumentation_order',
+                                                            'Smtb.Properties.C20Facts.servers_serve_the_muxes_directly'])
+    except common.TieBroken as t:
+        facts_err = t
+        ctx.oblige('T-facts: in-flight outermost, counter next, handler innermost; servers serve the wrapped mux directly', False, t.detail[:300])
     ctx.assumptions += ["promhttp InstrumentHandlerInFlight/Counter semantics and label canonicalisation (assumption list P1-P6 in Smtb/Model/Metrics.lean)",
                         "the model is hand-written; the tie is behavioural: real server.Run, client-side tally of responses vs. /metrics after quiescence, sequential and concurrent histories",
                         "partial: availability of the metrics endpoint during load and the gauge bound are observed (scrape-during-load), not proved"]
@@ -18,10 +27,15 @@ def run(ctx):
     runs = ctx.pick([['-seed', ctx.seed, '-n', 36, '-concurrent', 1, '-modes', 'deletion'],
                      ['-seed', ctx.seed + 1, '-n', 48, '-concurrent', 8, '-modes', 'insertion']],
                     [['-seed', ctx.seed + i, '-n', 400, '-concurrent', c] for i, c in enumerate((1, 4, 16, 2, 8))])
+    # a request that stays inside the handler for a long time (paused upload); held much longer
+    # when the handler chain changed
+    slow = 45 if facts_err else ctx.pick(0, 35)
+    if slow:
+        runs = runs + [['-seed', ctx.seed + 9, '-n', 6, '-concurrent', 1, '-modes', 'deletion', '-slow', slow]]
     found = None
     for args in runs:
         n, mism, _ = common.corr(ctx, 'metrics', 'corrserver', args, ['corr', 'metrics'], only={'metrics'},
-                                 const={'alive': 'ok', 'scrape-during-load': 'ok'})
+                                 const={'alive': 'ok', 'scrape-during-load': 'ok', 'slow-request': 'status 400'})
         if mism:
             found = (args, mism)
             break
@@ -34,6 +48,9 @@ def run(ctx):
                                                   'driver_args': ['corr', 'metrics'], 'index': i, 'case': line[:2000],
                                                   'code_says': code, 'spec_says': model})
         raise common.Violation(f'/metrics reports {code[:300]} but the responses sent were {model[:300]} (history: {line[:300]})', replay)
+    if facts_err:
+        replay = common.write_replay(ctx, 'tie', {'kind': 'tie', 'tie': facts_err.tie, 'detail': facts_err.detail[:3000]})
+        raise common.Violation('T-facts broken: ' + facts_err.detail[:300], replay, found_input=False)
     if ctx.thorough:
         common.leanchecker(ctx, ['Smtb.Properties.C20'])
 
@@ -42,7 +59,7 @@ def replay(ctx, data):
     common.go_build(['corrserver'])
     common.lake_build(['driver'])
     n, mism, _ = common.corr(ctx, 'replay', data['go_cmd'], data['go_args'], data['driver_args'], only={'metrics'},
-                             const={'alive': 'ok', 'scrape-during-load': 'ok'})
+                             const={'alive': 'ok', 'scrape-during-load': 'ok', 'slow-request': 'status 400'})
     if mism:
         print('REPLAY reproduces:', str(mism[0])[:800])
         return 1
